@@ -907,6 +907,8 @@ func (w *World) Exec(op *Op) (out Outcome) {
 	}()
 	w.lastRes = -1
 	S.beginOp()
+	F[w.client].BeginOp()
+	defer func() { F[w.client].EndOp(w.iters) }()
 	res, err := w.run(op)
 	if err != nil {
 		w.lastErr = err.Error()
